@@ -25,12 +25,14 @@ def catalogue_like(rng, total=400):
     return s0 + s1
 
 
-def opus_like(rng, nsec):
+OPUS_FORGERIES = ['zero-total', 'tiny-total', 'no-volumes', 'start-beyond', 'start-beyond', 'odd-total']
+
+
+def opus_like(rng, nsec, kind):
     """an Opus-looking sector 16 that is NOT a complete, self-consistent table"""
     s16 = bytearray(256)
     s16[0] = 0x20
     s16[3] = 18
-    kind = rng.choice(['zero-total', 'tiny-total', 'no-volumes', 'start-beyond', 'odd-total'])
     tot = nsec
     if kind == 'zero-total':
         tot = 0
@@ -107,7 +109,8 @@ def case(spec):
             hdfs = idx % 5 == 4          # HDFS flag bit set: only the metamorphic part is judged for these
             if hdfs:
                 variant = 'acorn'
-            spt = rng.choice([10, 18])
+            spt = [18, 10, 18][idx % 3]
+            rng.choice([10, 18])
             total = rng.choice([400, 800]) if spt == 10 else rng.choice([720, 1023])
             tracks = dm.std_geometry(total, spt)
             first = 4 if variant == 'watford' else 2
@@ -146,8 +149,10 @@ def case(spec):
             results = []
             nvar = 0
             # each variant replaces the bodies of all files by one imitation kind (catalogue stays identical)
-            kinds = ['random', 'aa-run', 'watford-marker', 'catalogue-like', 'zeros', 'opus-like', 'free-space-noise']
-            for vk in kinds:
+            kinds = ['random', 'aa-run', 'watford-marker', 'catalogue-like', 'zeros', 'free-space-noise']
+            # every kind of incomplete Opus table on every double-density disc
+            todo = [(k, None) for k in kinds] + ([('opus-like', fk) for fk in OPUS_FORGERIES] if spt == 18 else [])
+            for vk, fk in todo:
                 for e in ents:
                     if vk in ('random', 'free-space-noise'):
                         e.body = rng.randbytes(e.length)
@@ -162,7 +167,7 @@ def case(spec):
                 if vk == 'opus-like' and spt == 18:
                     own = s.owners().get(16)
                     if own and own[0] == 'file':
-                        forged, fk = opus_like(rng, tracks * spt)
+                        forged, fk = opus_like(rng, tracks * spt, fk)
                         img[16 * 256:18 * 256] = forged
                         res.seen('opus_forgeries', fk)
                 if vk == 'free-space-noise':
@@ -195,7 +200,7 @@ def case(spec):
                 if (g is None or g[2] * g[3] < total or g[1] != 1) and not (hdfs and g is None):
                     res.violation('geometry-too-small-or-changed:%s' % vk, 'geometry %r for a catalogue of %d sectors' % (g, total),
                                   {'config': obs['show-config'][1]}, files, [dfsbin, '--show-config', '--file', path, 'cat'])
-                res.sigs.append('bodies|%s|%d|%d|%s|%d' % (variant, spt, total, vk, idx))
+                res.sigs.append('bodies|%s|%d|%d|%s%s|%d' % (variant, spt, total, vk, fk or '', idx))
             base = results[0]
             for vk, obs, files, path in results[1:]:
                 res.events += 1
@@ -207,7 +212,7 @@ def case(spec):
                                   'same catalogue, bodies "%s" vs "random": %s differ' % (vk, ', '.join(diff)),
                                   {'this': {k: obs[k] for k in diff}, 'random': {k: base[1][k] for k in diff}}, f2,
                                   [dfsbin, '--file', path, diff[0].split()[0]])
-            res.sample = {'kind': kind, 'variant': variant, 'spt': spt, 'total': total, 'files': len(ents), 'variants': kinds}
+            res.sample = {'kind': kind, 'variant': variant, 'spt': spt, 'total': total, 'files': len(ents), 'variants': [a for a, _ in todo]}
         elif kind == 'inter':
             # two-sided interleaved images: each side is identified on its own markers
             from ..dfsutil import make_image
